@@ -86,14 +86,20 @@ def check(ctx):
     run = repo.fn(f"{IPC}:NetworkClient._run")
     lst = repo.fn(f"{IPC}:NetworkClient._listen")
     call = repo.fn(f"{IPC}:NetworkClient.call")
-    # the fail-all routine: the method that calls set_exception on the values of the table
+    # the fail-all routine and the pending table are found by role: the NetworkClient method that loops over the
+    # values of a self.<dict> calling set_exception; that dict is the pending table
+    global TABLE
     failall = None
     for f in m.funcs.values():
-        if f.cls == "NetworkClient" and any(isinstance(c.func, ast.Attribute) and c.func.attr == "set_exception" for c in calls_in(f.node)) and \
-                any(dotted(n) == TABLE for n in ast.walk(f.node)):
-            failall = f
+        if f.cls == "NetworkClient" and any(isinstance(c.func, ast.Attribute) and c.func.attr == "set_exception" for c in calls_in(f.node)):
+            for lp in [n for n in walk_local(f.node) if isinstance(n, ast.For)]:
+                it = lp.iter
+                if isinstance(it, ast.Call) and isinstance(it.func, ast.Attribute) and it.func.attr in ("values", "items") and (dotted(it.func.value) or "").startswith("self."):
+                    failall = f
+                    TABLE = dotted(it.func.value)
     if failall is None:
         raise AnalysisError("routine failing the pending futures not found in NetworkClient")
+    ctx.note("pending_table", TABLE)
 
     # ---- R1
     def dirty(st):
@@ -369,5 +375,6 @@ SEEDS = [
          "    except KlongException as e:\n        import traceback\n        traceback.print_exception(type(e), e, e.__traceback__)\n        future_loop.call_soon_threadsafe(result_future.set_exception, KlongException(\"internal error\"))", rule="C14-R7"),
     Seed("refactor-cleanup-arg-default", "refactor", IPC, "                self._cleanup_pending_responses(close_exception)\n                if on_close is not None:",
          "                self._cleanup_pending_responses(close_exception or KlongIPCConnectionClosedException())\n                if on_close is not None:"),
+    Seed("refactor-rename-table", "refactor", IPC, "pending_responses", "awaiting", count=9),
     Seed("refactor-listen-names", "refactor", IPC, "                future = self.pending_responses.pop(msg_id)\n                future.set_result(msg)", "                waiter = self.pending_responses.pop(msg_id)\n                waiter.set_result(msg)"),
 ]
